@@ -577,8 +577,55 @@ def _walk13(n):
             yield from _walk13(c)
 
 
+def unique_rank(F, rep, rid):
+    """Shared with C20-R8."""
+    rep.rule(rid, "default names stay unique across deletions: the rank that names a new bias (`<type><rank>`) is taken from a "
+                  "counter that is incremented before it is used and never goes down while the module lives -- not from the "
+                  "number of biases that currently exist (a deleted bias would free its number for a name still in use)")
+    from .rules_c10 import lvalue_writes
+    n = 0
+    for f in F.funcs.values():
+        if "/src/" not in f.file or f.body is None:
+            continue
+        seen = set()
+        for w, t in lvalue_writes(f):
+            ts = X.strip(t)
+            if ts["k"] != "MemberExpr" or ts.get("q") != "colvarbias::rank" or w.get("op") != "=" or f.cls == "colvarbias":
+                continue
+            rhs = X.strip(X.kids(w)[1] if w["k"] == "BinaryOperator" else X.call_args(w)[1])
+            cl = X.const_locals(f)
+            hops = 0
+            while rhs["k"] == "DeclRefExpr" and rhs.get("d") in cl and hops < 3:
+                rhs = X.strip(cl[rhs["d"]])
+                hops += 1
+            key = X.re_strip(X.key(rhs, f))
+            if (f.q.split("<")[0], key) in seen:
+                continue
+            seen.add((f.q.split("<")[0], key))
+            n += 1
+            ok = False
+            why = "`%s` is not a variable" % X.text(rhs, f)[:50]
+            if rhs["k"] == "DeclRefExpr":
+                d = rhs.get("d")
+                incs = [w2 for w2, t2 in lvalue_writes(f) if X.strip(t2)["k"] == "DeclRefExpr" and X.strip(t2).get("d") == d and
+                        (w2.get("op") in ("+=", "++") or (w2["k"] in ("UnaryOperator", "CXXOperatorCallExpr") and w2.get("op") == "++"))]
+                decs = [w2 for w2, t2 in lvalue_writes(f) if X.strip(t2)["k"] == "DeclRefExpr" and X.strip(t2).get("d") == d and w2.get("op") in ("-=", "--", "=")]
+                ok = bool(incs) and not decs and any(f.cfg.dominates(i, w) for i in incs)
+                why = "`%s` is incremented before the assignment (%d site(s)) and never lowered here" % (rhs.get("n"), len(incs)) if ok else \
+                      "`%s` is not an only-growing counter in this function" % rhs.get("n")
+            rep.add(rid, "%s|rank" % f.q.split("<")[0], f.loc(w), "%s sets the rank of a new bias: %s" % (f.q.split("<")[0], why), ok,
+                    detail="two biases with the same default name: by-name script commands reach only the older one", func=f.q)
+    if n < 1:
+        raise AnalysisBroken("%s: assignment of colvarbias::rank not found" % rid)
+
+
+def r10(F, rep):
+    unique_rank(F, rep, "C13-R10")
+
+
 def run(F, rep, tier):
     r9(F, rep)
+    r10(F, rep)
     r1(F, rep)
     r2(F, rep)
     r3(F, rep)
